@@ -173,6 +173,8 @@ pub fn run_check(spec: &CheckSpec, tier: Tier) -> i32 {
                         acc.nontrivial += 1;
                         acc.signatures.insert(res.stats.signature());
                     }
+                    acc.schedules.insert(res.sched_digest);
+                    acc.histories.insert(res.history_digest);
                     *acc.strategies.entry(strategy_name(&case.sched.strategy).to_string()).or_insert(0) += 1;
                     acc.absorb_stats(&res);
                     if acc.seeds.len() < 2 {
